@@ -8,6 +8,7 @@
     delta <enc> <dist> <hex> <len,len,...|->                         -> "<hex>"   (the static loops, chunk by chunk)
     dstream <enc> <next> <dist> <hex> <in:out:act,...>               -> like stream
     deltax <enc> <dist> <hex>                                        -> "<hex>"   (large inputs, processed in 4 KiB pieces)
+    cov <fid> <now_pos> <hex>                                        -> branch statistics of the encoder on this buffer (model only; evidence)
   fid: x86 powerpc ia64 arm armthumb sparc arm64 riscv;  enc: 1 = encoder, 0 = decoder;  next: 0 = NULL, 1 = pass-through;
   act: 0 RUN, 1 SYNC_FLUSH, 2 FULL_FLUSH, 3 FINISH.
 -/
@@ -100,6 +101,108 @@ def runStream {σ : Type} (code : σ → List UInt8 → Nat → Action → σ ×
       if r.ret != 0 || (r.consumed == 0 && r.out.length == 0) then stopped := true
   return s!"calls={",".intercalate calls.toList} out={strOfAscii out}"
 
+/-- x86 encoder walk that only counts: candidates, conversions per mask value, rejections by mask / by byte 4, second loop iterations -/
+def x86Cov (pc0 : BitVec 32) (bs : List UInt8) : String := Id.run do
+  let mut st : X86State := ⟨0#32, pc0 - 5#32⟩
+  let mut pc := pc0
+  let mut l := bs
+  let mut cand := 0
+  let mut m0 := 0
+  let mut m2 := 0
+  let mut m4 := 0
+  let mut m8 := 0
+  let mut rejMask := 0
+  let mut rejByte := 0
+  let mut loop2 := 0
+  for _ in [0:bs.length] do
+    match l with
+    | b0 :: b1 :: b2 :: b3 :: b4 :: rest =>
+      if b0 != 0xE8 && b0 != 0xE9 then
+        l := b1 :: b2 :: b3 :: b4 :: rest
+        pc := pc + 1#32
+      else
+        cand := cand + 1
+        let mask := x86NewMask st pc
+        if x86Convertible b4 mask then
+          if mask == 0#32 then m0 := m0 + 1
+          else if mask == 2#32 then m2 := m2 + 1
+          else if mask == 4#32 then m4 := m4 + 1
+          else m8 := m8 + 1
+          let dest1 := x86Src b1 b2 b3 b4 + (pc + 5#32)
+          let i := maskToBitNumber.getD (mask >>> 1).toNat 0
+          if mask != 0#32 && test86 (u8 (dest1 >>> (24 - i * 8))) then loop2 := loop2 + 1
+          st := ⟨0#32, pc⟩
+          l := rest
+          pc := pc + 5#32
+        else
+          if test86 b4 then rejMask := rejMask + 1 else rejByte := rejByte + 1
+          let mask := mask ||| 1#32
+          st := ⟨if test86 b4 then mask ||| 0x10#32 else mask, pc⟩
+          l := b1 :: b2 :: b3 :: b4 :: rest
+          pc := pc + 1#32
+    | _ => l := []
+  return s!"x86.candidates={cand} x86.conv.mask0={m0} x86.conv.mask2={m2} x86.conv.mask4={m4} x86.conv.mask8={m8} x86.rejected.by-mask={rejMask} x86.rejected.by-byte4={rejByte} x86.inner-loop-2nd-iteration={loop2}"
+
+/-- RISC-V encoder walk that only counts the branch taken at each step -/
+def rvCov (bs : List UInt8) : String := Id.run do
+  let mut l := bs
+  let mut jalSkip := 0
+  let mut jal := 0
+  let mut pair := 0
+  let mut notPair := 0
+  let mut special := 0
+  let mut notSpecial := 0
+  let mut other := 0
+  for _ in [0:bs.length] do
+    match l with
+    | b0 :: b1 :: b2 :: b3 :: b4 :: b5 :: b6 :: b7 :: rest =>
+      if b0 == 0xEF then
+        if u32 b1 &&& 0x0D#32 != 0#32 then
+          jalSkip := jalSkip + 1; l := b2 :: b3 :: b4 :: b5 :: b6 :: b7 :: rest
+        else
+          jal := jal + 1; l := b4 :: b5 :: b6 :: b7 :: rest
+      else if u32 b0 &&& 0x7F#32 == 0x17#32 then
+        let inst := le32 b0 b1 b2 b3
+        if inst &&& 0xE80#32 != 0#32 then
+          if notAuipcPair inst (le32 b4 b5 b6 b7) then
+            notPair := notPair + 1; l := b6 :: b7 :: rest
+          else
+            pair := pair + 1; l := rest
+        else if notSpecialAuipc inst (inst >>> 27) then
+          notSpecial := notSpecial + 1; l := b4 :: b5 :: b6 :: b7 :: rest
+        else
+          special := special + 1; l := rest
+      else
+        other := other + 1; l := b2 :: b3 :: b4 :: b5 :: b6 :: b7 :: rest
+    | _ => l := []
+  return s!"riscv.jal-skipped-rd={jalSkip} riscv.jal={jal} riscv.auipc-pair={pair} riscv.auipc-not-pair-skip6={notPair} riscv.special-form={special} riscv.auipc-x0-x2-not-special={notSpecial} riscv.other={other}"
+
+/-- fixed-grid filters: number of blocks the encoder changed; ARM64 additionally BL / ADRP inside / ADRP outside the ±512 MiB window -/
+def blockCov (f : FilterId) (pc0 : BitVec 32) (bs : List UInt8) : String := Id.run do
+  let w := if f == FilterId.ia64 then 16 else if f == FilterId.armthumb then 2 else 4
+  let (o, _, _) := filterCode f true X86State.init pc0 bs
+  let mut changed := 0
+  let mut a := bs
+  let mut b := o
+  let mut bl := 0
+  let mut adrpIn := 0
+  let mut adrpOut := 0
+  for _ in [0:bs.length / w] do
+    if a.take w != b.take w then changed := changed + 1
+    if f == FilterId.arm64 then
+      let v := BitVec.ofNat 32 (packLE (a.take 4))
+      if v >>> 26 == 0x25#32 then bl := bl + 1
+      else if v &&& 0x9F000000#32 == 0x90000000#32 then
+        let src := ((v >>> 29) &&& 3#32) ||| ((v >>> 3) &&& 0x001FFFFC#32)
+        if (src + 0x00020000#32) &&& 0x001C0000#32 != 0#32 then adrpOut := adrpOut + 1 else adrpIn := adrpIn + 1
+    a := a.drop w
+    b := b.drop w
+  let nm := match f with
+    | .powerpc => "powerpc" | .ia64 => "ia64" | .arm => "arm" | .armthumb => "armthumb" | .sparc => "sparc" | .arm64 => "arm64"
+    | .x86 => "x86" | .riscv => "riscv"
+  let extra := if f == FilterId.arm64 then s!" arm64.bl={bl} arm64.adrp-in-window={adrpIn} arm64.adrp-outside-window={adrpOut}" else ""
+  return s!"{nm}.units-changed={changed}{extra}"
+
 /-- "-" or a comma-separated list -/
 def listOf {α : Type} (f : String → Option α) (s : String) : Option (List α) :=
   if s == "-" then some [] else (s.splitOn ",").mapM f
@@ -129,6 +232,14 @@ def step (_ : Unit) (ws : List String) : Unit × String :=
         calls := calls.push s!"{n}:{st.prevMask.toNat}:{st.prevPos.toNat}"
       return ((), s!"{if calls.isEmpty then "-" else ",".intercalate calls.toList} {strOfAscii (pushHex done rest)}")
     | _, _, _, _, _ => ((), "bad-op")
+  | ["cov", fid, np, hx] =>
+    match fidOf fid, np.toNat?, parseHex hx with
+    | some f, some np, some bs =>
+      match f with
+      | .x86 => ((), x86Cov (BitVec.ofNat 32 np) bs)
+      | .riscv => ((), rvCov bs)
+      | _ => ((), blockCov f (BitVec.ofNat 32 np) bs)
+    | _, _, _ => ((), "bad-op")
   | ["oneshot", fid, enc, so, hx] =>
     match fidOf fid, boolOf enc, so.toNat?, parseHex hx with
     | some f, some e, some so, some bs =>
